@@ -27,7 +27,12 @@ def binades(alias, signed_negative=False):
 
 
 def budget(alias):
-    return 4 * TYPES[alias][1] + 64
+    """tight solver-side budget (see hk/src/tr.rs c17_budget)"""
+    return TYPES[alias][1] + 32
+
+
+def budget_expr(alias):
+    return "c17_budget(%d)" % TYPES[alias][1]
 
 
 def family(alias):
